@@ -26,6 +26,10 @@ PROPS = {
                 rule="a run = 2-6 input sketches (lg_k 4..12, three types, list/set/HLL mode, empty, started full-size) and raw items delivered to one hll_union in scheduler order and multiplicity, lvalue/rvalue, with get_result/estimate reads and resets interleaved; result lg_k and registers/coupons compared with the model after every delivery; non-trivial = at least one sketch delivery; distinct = distinct plan hash"),
     "C05": dict(level="exploration", units=[("agg_cpc", "c05", 16, 4000, 150000)],
                 rule="a run = up to 4 CPC sketches (lg_k 4..10) driven across every flavor boundary with typed updates, serialize/deserialize at every stage (restored sketch continues), a cpc_union fed sketches of unequal lg_k in scheduler order with duplicates and interleaved get_result; coupon count vs independent (row,col) model, re-offer probe, validate(), equal-(lg_k,C) estimate identity; non-trivial = union delivery, restore or probe; distinct = distinct plan hash"),
+    "C07": dict(level="exploration", units=[("quant", "c07", 16, 4000, 150000)],
+                rule="a run = a pool of 4 kll / req (HRA or LRA) / classic quantiles sketches over float, string or instrumented items driven by seeded batches (sorted, reversed, random, constant, duplicates, NaN), merge trees (equal/unequal k, empty/exact/estimating operands, lvalue/rvalue), copies and restores, with reader steps (sorted view, rank, quantile, CDF, PMF, invalid queries) interleaved; the coin source is seeded or adversarial (all-0, all-1, alternating); n, extremes, iterator weights and the space bound are checked after every step on every live sketch; non-trivial = at least one merge, restore, reader or adversarial coin; distinct = distinct plan hash"),
+    "C08": dict(level="exploration", units=[("quant", "c08", 16, 6000, 200000)],
+                rule="a run = one short seeded history (updates, merges, k minimal) executed with the library's coin owned by the simulator: for kll and classic quantiles every operation is re-executed from a copied pre-state once per outcome of the draws it requests (complete draw tree) and the exact integer martingale identity is checked at every retained item; for req the whole history is replayed under every coin sequence (<= 14 draws) and the mean rank count must equal the true count exactly; non-trivial = at least one operation that flipped a coin; distinct = distinct plan hash"),
     "C09": dict(level="exploration", units=[("store_d", "c09d", 6, 2400, 60000), ("store_q", "c09q", 5, 2000, 50000), ("store_m", "c09m", 5, 2000, 50000)],
                 rule="a run = one seeded history (feed/merge/reset, checkpoints through either API with header/chunk/trailing/torn/lost faults, crashes with recovery from the log) over one family and configuration; non-trivial = executed at least one checkpoint round-trip or fault; distinct = distinct plan hash"),
     "C11": dict(level="fault_enumeration", units=[("store_d", "c11d", 6, 360, 9000), ("store_q", "c11q", 5, 300, 7500), ("store_m", "c11m", 5, 300, 7500)],
